@@ -314,20 +314,27 @@ func (ev *evaluator) eval(e *gen.Expr) interface{} {
 		failf("cannot index %T", recv)
 	case "slice":
 		recv := ev.eval(e.Kids[0])
+		var fromV, toV interface{}
+		switch r.Arg {
+		case "ft":
+			fromV = ev.eval(e.Kids[1])
+			toV = ev.eval(e.Kids[2])
+		case "f":
+			fromV = ev.eval(e.Kids[1])
+		case "t":
+			toV = ev.eval(e.Kids[1])
+		}
 		rv := reflect.ValueOf(recv)
 		if k := rv.Kind(); k != reflect.Slice && k != reflect.Array && k != reflect.String {
 			failf("cannot slice %T", recv)
 		}
 		n := rv.Len()
 		from, to := 0, n
-		switch r.Arg {
-		case "ft":
-			from = toIntV(ev.eval(e.Kids[1]))
-			to = toIntV(ev.eval(e.Kids[2]))
-		case "f":
-			from = toIntV(ev.eval(e.Kids[1]))
-		case "t":
-			to = toIntV(ev.eval(e.Kids[1]))
+		if fromV != nil || r.Arg == "ft" || r.Arg == "f" {
+			from = toIntV(fromV)
+		}
+		if toV != nil || r.Arg == "ft" || r.Arg == "t" {
+			to = toIntV(toV)
 		}
 		if to > n {
 			to = n
